@@ -1,5 +1,6 @@
 import QV.Shared.SchedLemmas
 import QV.C23.Spec
+import QV.C23.Lemmas
 /-
 C23 — Memory accesses are sequentially consistent in the dependency graph.
 Property theorems only.  The supporting invariant (`QInv`, `QInv.step`, `runItems_memInv`) lives in
@@ -301,6 +302,15 @@ theorem C23_history_checker_sound (init : Queue) (h : List Access) (dss : List (
     (hb : histSpecB init h dss = true) : HistSpec init h dss := by
   simp only [histSpecB, Bool.and_eq_true] at hb
   exact ⟨histOrderedB_sound _ _ _ hb.1, depsJustifiedB_sound _ _ _ _ hb.2⟩
+
+/-- **C23, queue level, exact (all histories).** At every step of any history the memory queue reports *exactly*:
+the most recent earlier write/capture of the region (nothing if there is none), plus — when the access is
+itself a write or capture — every read of the region since that write. In particular reads never depend on
+reads, and nothing older than the last write is ever reported. (Independent specification: `IsLastWrite`,
+`ReadSince` are stated by list decomposition, not by running a queue.) -/
+theorem C23_history_exact (h : List Access) :
+    AllExact Queue.memInit [] h (runHistory (QMap.empty Queue.memInit) h).2 :=
+  history_exact _ h _ [] (Exact.empty _ rfl)
 
 /-! ### Non-vacuity -/
 
